@@ -33,6 +33,59 @@ PROP = "C08"
 MOD = "param.parameterized"
 
 
+UNWATCH_REPLAY = '''import sys, os, itertools, logging
+sys.path.insert(0, os.environ.get('PYVC_REPO', '/repo'))
+logging.disable(logging.WARNING)
+import param
+bad = []
+class Src(param.Parameterized):
+    x = param.Number(default=1)
+class Bag(param.Parameterized):
+    # a source whose truth value follows its contents
+    x = param.Number(default=1)
+    items = param.List(default=[])
+    def __len__(self):
+        return len(self.items)
+class Off(param.Parameterized):
+    x = param.Number(default=1)
+    def __bool__(self):
+        return False
+class T(param.Parameterized):
+    a = param.Number(default=0, allow_refs=True)
+    b = param.Number(default=0, allow_refs=True)
+def sync_watchers(src):
+    return len(src._param__private.watchers.get('x', {}).get('value', []))
+for kind, mk in (('truthy source', Src), ('empty container source (falsy)', Bag), ('source with __bool__ False', Off)):
+    for how in ('plain', 'relink', 'update-context'):
+        s1, s2 = mk(x=3), mk(x=4)
+        base1, base2 = sync_watchers(s1), sync_watchers(s2)
+        t = T(a=s1.param.x)
+        if t.a != 3:
+            bad.append('%s: a linked at construction holds %r' % (kind, t.a)); continue
+        for rnd in range(3):
+            if how == 'plain':
+                t.a = 7; t.a = s1.param.x
+            elif how == 'relink':
+                t.a = s2.param.x; t.a = s1.param.x
+            else:
+                with t.param.update(a=9):
+                    pass
+        n1, n2 = sync_watchers(s1) - base1, sync_watchers(s2) - base2
+        if n1 > 1 or n2 > 0:
+            bad.append('%s, %s three times: %d watchers are left on the linked source (one is needed), %d on the source no longer linked'
+                       % (kind, how, n1, n2))
+        t.a = 5
+        if sync_watchers(s1) - base1 != 0:
+            bad.append('%s, %s then a plain value: %d watcher(s) left on the old source' % (kind, how, sync_watchers(s1) - base1))
+        s1.x = 11
+        if t.a != 5:
+            bad.append('%s, %s then a plain value: the old source still drives the parameter (a == %r)' % (kind, how, t.a))
+if bad:
+    print('REPRODUCED: ' + bad[0]); sys.exit(1)
+print('NOT-REPRODUCED'); sys.exit(0)
+'''
+
+
 def update_ref_contract(ref_is_none):
     holder = {}
 
@@ -43,6 +96,7 @@ def update_ref_contract(ref_is_none):
             if name == "unwatch":
                 un = st.ghost["unwatched"]
                 st.ghost["unwatched"] = z3.Store(un, I.term(args[0]), True)
+                st.ghost["unwatch_ns"] = z3.Store(st.ghost["unwatch_ns"], I.term(args[0]), I.term(selfv))
                 st.ghost["unwatch_on"] = st.ghost.get("unwatch_on", []) + [(I.term(selfv), I.term(args[0]))]
                 return [(st, Conc(None))]
             if name == "cancel":
@@ -93,6 +147,7 @@ def update_ref_contract(ref_is_none):
         holder["rw_seq"] = rw_seq
         holder["entry"] = U.fresh("some_recorded_entry")
         st.ghost["unwatched"] = z3.K(vm.V, False)
+        st.ghost["unwatch_ns"] = z3.Const("unwatch_ns0", z3.ArraySort(vm.V, vm.V))
         # every recorded entry is a (names, watcher) pair
         f = S.fold(I, "all_pairs", lambda e: z3.And(vm.ty(e) == vm.TAG["tuple"], vm.tlen(e) == 2))
         st.pc.append(f.sfn(rw_seq))
@@ -108,13 +163,22 @@ def update_ref_contract(ref_is_none):
                                      "ref": I.term(ref), "refs0": (st.heap[refs.oid].keys, st.heap[refs.oid].vals),
                                      "symbols": {}}
 
+    def own_namespace(I, st, w):
+        # the `.param` namespace of the object the watcher was registered on: its instance, or its
+        # class when it has no instance (`inst is None` — NOT "when the instance is falsy")
+        from pyvc.objects import sym_field
+        inst, cls_ = z3.Select(sym_field(I, st, "inst"), w), z3.Select(sym_field(I, st, "cls"), w)
+        return z3.Select(sym_field(I, st, "param"), z3.If(inst == I.U.NONE, cls_, inst))
+
     def inv(I, st, pre):
         e = holder["entry"]
         w = vm.titem(e, 1)
-        return z3.Implies(z3.Contains(pre.seq, z3.Unit(e)), z3.Select(st.ghost["unwatched"], w))
+        return z3.Implies(z3.Contains(pre.seq, z3.Unit(e)),
+                          z3.And(z3.Select(st.ghost["unwatched"], w), z3.Select(st.ghost["unwatch_ns"], w) == own_namespace(I, st, w)))
 
     def havoc(I, st):
         st.ghost["unwatched"] = z3.Const("unwatched!%d" % I.new_oid(), z3.ArraySort(vm.V, z3.BoolSort()))
+        st.ghost["unwatch_ns"] = z3.Const("unwatch_ns!%d" % I.new_oid(), z3.ArraySort(vm.V, vm.V))
         st.ghost["unwatch_on"] = []
 
     def post(I, info, st, oc):
@@ -127,6 +191,9 @@ def update_ref_contract(ref_is_none):
         e = holder["entry"]
         out.append(("every recorded ref watcher is unwatched (no watcher left on an old source)",
                     z3.Implies(z3.Contains(holder["rw_seq"], z3.Unit(e)), z3.Select(st.ghost["unwatched"], vm.titem(e, 1)))))
+        out.append(("… through the namespace of the object it was registered on (its instance unless it has none — whatever the instance's truth value)",
+                    z3.Implies(z3.Contains(holder["rw_seq"], z3.Unit(e)),
+                               z3.Select(st.ghost["unwatch_ns"], vm.titem(e, 1)) == own_namespace(I, st, vm.titem(e, 1)))))
         rw = ph.get("ref_watchers")
         out.append(("the watcher table is emptied before it is rebuilt",
                     z3.BoolVal(isinstance(rw, Ref) and st.heap[rw.oid].kind == "list" and rw.oid != info["rw"].oid
@@ -170,8 +237,11 @@ def update_ref_contract(ref_is_none):
         out.append(("other links stay recorded (and no new one appears)", goal))
         return out
     loops = {("Parameters._update_ref", "ref_watchers"): LoopSpec("ref_watchers", inv=inv, heap=havoc, name="unwatch-every-old-ref-watcher")}
-    return FunctionContract("%s:Parameters._update_ref" % MOD, PROP, setup, post, configure=configure, loops=loops,
-                            name="Parameters._update_ref[%s]" % ("unlink" if ref_is_none else "link"))
+    c = FunctionContract("%s:Parameters._update_ref" % MOD, PROP, setup, post, configure=configure, loops=loops,
+                         name="Parameters._update_ref[%s]" % ("unlink" if ref_is_none else "link"))
+    c.static_replay = UNWATCH_REPLAY
+    c.static_witness = "sources whose truth value is False (empty containers, __bool__), relinked / overridden several times"
+    return c
 
 
 def contracts():
